@@ -333,7 +333,7 @@ pub fn plan(id: &str, tier: &str, seed: u64, round: u64) -> Plan {
             let n = if thorough { 512 } else { 320 };
             let mut cfg = string_cfg(id);
             cfg.derives = derives(&["Display"]);
-            cfg.allow_default = false;
+            cfg.allow_default = true;
             cfg.allow_prefix = true;
             cfg.allow_placeholders = true;
             cfg.allow_ci = false;
